@@ -4,6 +4,7 @@ import (
 	"fmt"
 	"go/token"
 	"go/types"
+	"sort"
 	"strings"
 
 	"golang.org/x/tools/go/ssa"
@@ -24,6 +25,10 @@ func init() {
 		Run: runC09,
 	})
 	addMutants("C09",
+		mutant{"PrepareRead bounded by the whole buffer length", "byte_buffer.go",
+			"\t\tif b.WriteLen() >= need {", "\t\tif b.Len() >= n {", "C09-R4"},
+		mutant{"PrepareRead commits without checking the write area", "byte_buffer.go",
+			"\t\tif b.WriteLen() >= need {\n\t\t\tb.Commit(need)\n\t\t} else {\n\t\t\terr = sonicerrors.ErrNeedMore\n\t\t}", "\t\tb.Commit(need)", "C09-R4"},
 		mutant{"Consume not clamped to the read area", "byte_buffer.go",
 			"\tif readLen := b.ReadLen(); n > readLen {\n\t\tn = readLen\n\t}\n\n\tif n > 0 {\n\t\t// TODO this can be smarter", "\tif n > 0 {\n\t\t// TODO this can be smarter", "C09-R1"},
 		mutant{"Commit clamps after adding (overflow)", "byte_buffer.go",
@@ -505,6 +510,61 @@ func runC09(c *Ctx) {
 			c.check(good, fn, "shift", fn.Pos(), strings.Join(names, ", ")+" move down by the same amount", spec.name+" does not move "+strings.Join(names, ", ")+" down by one and the same amount after copying data[..:wi] over the removed range on that same path: the regions overlap or a cursor points past the data after the memmove")
 		}
 	}
+
+	// ------------------------------------------------------------------------------------------------ R4
+	c.rule("C09-R4", "PrepareRead(n) succeeds only when n bytes are readable afterwards: nil is returned either under n <= ReadLen() or after Commit(n-ReadLen()) under n-ReadLen() <= WriteLen()", 1)
+	{
+		fn := p.Method("sonic", bbT, "PrepareRead")
+		commit := p.Method("sonic", bbT, "Commit")
+		paths, overflow := enumPaths(fn)
+		if overflow {
+			c.unproven(fn, "paths", fn.Pos(), "too many paths")
+		}
+		litStrings := func(path *Path) map[string]bool {
+			out := map[string]bool{}
+			for _, l := range path.Lits {
+				if op, x, y, ok := l.Lit.cmp(); ok {
+					out[cmpString(op, exprString(x, nil, 0), exprString(y, nil, 0))] = true
+				}
+			}
+			return out
+		}
+		bad := ""
+		n := 0
+		for _, path := range paths {
+			ret := path.Ret()
+			if ret == nil || len(ret.Results) != 1 || path.Panics {
+				continue
+			}
+			if path.nilness(ret.Results[0]) != "nil" {
+				continue
+			}
+			n++
+			lits := litStrings(path)
+			var commitArg ssa.Value
+			for _, in := range path.Instrs() {
+				if isCallToFn(in, commit) {
+					commitArg = in.(ssa.CallInstruction).Common().Args[1]
+				}
+			}
+			need := "($n-ReadLen())"
+			if commitArg == nil {
+				// already readable
+				if !(lits[cmpString(token.LEQ, need, "0")] || lits[cmpString(token.LEQ, "$n", "ReadLen()")] || lits[cmpString(token.LSS, need, "1")]) {
+					bad = fmt.Sprintf("success without committing anything is not guarded by n <= ReadLen() (guards on the path: %v)", keysOf(lits))
+				}
+				continue
+			}
+			if exprString(commitArg, nil, 0) != need {
+				bad = "the committed amount is " + exprString(commitArg, nil, 0) + ", not n - ReadLen()"
+				continue
+			}
+			if !(lits[cmpString(token.LEQ, need, "WriteLen()")] || lits[cmpString(token.LEQ, "$n", "(ReadLen()+WriteLen())")]) {
+				bad = fmt.Sprintf("Commit(n-ReadLen()) is not guarded by n-ReadLen() <= WriteLen() (guards on the path: %v)", keysOf(lits))
+			}
+		}
+		c.check(bad == "" && n > 0, fn, "grant", fn.Pos(), "nil only when n bytes are readable afterwards", "PrepareRead can report success with fewer than n readable bytes ("+bad+"): Commit clamps to the write area, so a decoder that was promised n bytes slices past the data it has (stale bytes decoded as a frame, or a panic)")
+	}
 }
 
 // sameAmount: identical SSA value, or loads of the same field of the same local.
@@ -521,4 +581,13 @@ func sameAmount(a, b ssa.Value) bool {
 		return ok1 && ok2 && fa.X == fb.X && fa.Field == fb.Field
 	}
 	return false
+}
+
+func keysOf(m map[string]bool) []string {
+	var ks []string
+	for k := range m {
+		ks = append(ks, k)
+	}
+	sort.Strings(ks)
+	return ks
 }
